@@ -160,6 +160,8 @@ def run(tier, seed, procs):
                             for i in range(hs)], procs)
     cs, cn = (4, 50) if quick else (16, 2500)
     cols += drive.pool_map(shard_collections, [(cn, seed * 1000 + 800 + i) for i in range(cs)], procs)
+    cols += drive.pool_map(drive.shard_enum_stale, [(MOD, 'story', i, 2 if quick else 3) for i in range(11)], procs)
+    cols += drive.pool_map(drive.shard_enum_stale, [(MOD, 'item', i, 2 if quick else 3) for i in range(9)], procs)
     if not quick:
         # coverage-guided campaign (atheris/libFuzzer over the same strategies)
         from vlib import fuzz
